@@ -58,7 +58,7 @@ PROPS = {
     "C13": dict(units=["builder", "spawn", "pstate"], tagged_units=["spawn", "pstate"], kani=["w_dup2", "w_pipe"], level="proof",
                 bounded_scenarios=[("c13_pipeline_shapes", "16 pipelines: a first stage that refuses its input and writes later (a result reported as Ok must be complete); 2..5 stages in every composition shape (iterator, left-nested |, pipeline|pipeline, Pipeline|Exec) through the real crate and sh; join/capture against a first stage that closes its streams and keeps working")]),
     "C14": dict(units=["builder", "spawn", "pstate"], tagged_units=["spawn", "pstate"], kani=[], level="proof",
-                bounded_scenarios=[("c14_partial_failure", "123 failing pipelines: n = 2..4 `cat` stages, every failing position, stdin null/pipe/data, popen/join/capture/communicate/stream_stdout/stream_stdin, and for capture/communicate also started commands that first write 300000 bytes to their stderr; promptness, no child left, descriptor count")]),
+                bounded_scenarios=[("c14_partial_failure", "127 failing pipelines: started commands with a stderr pipe of their own that they fill (every end held for a started command is released before the wait); n = 2..4 `cat` stages, every failing position, stdin null/pipe/data, popen/join/capture/communicate/stream_stdout/stream_stdin, and for capture/communicate also started commands that first write 300000 bytes to their stderr; promptness, no child left, descriptor count")]),
     "C16": dict(units=["builder", "spawn"], tagged_units=["spawn"], bounded_scenarios=[("c16_builder_model", "1633 command descriptions: every sequence of up to 3 of 9 builder edits (env/env_remove/env_clear/env_extend/arg), each also through a clone taken half-way, run through the real crate and /bin/sh against a plain model; a shell command string, an argument and an environment value that are not valid UTF-8 arrive byte for byte")],
                 kani=["r_exec_stdin_refuses", "r_exec_stdout_refuses", "r_exec_stderr_refuses", "r_exec_terminators_refuse_data", "w_exec_stdin_accepts"], level="proof"),
     "C08": dict(units=["spawn", "builder"], kani=["w_pipe", "w_set_inheritable", "w_make_standard_stream"], level="proof",
